@@ -77,7 +77,7 @@ func H_jsPure(t int, es6 bool) {
 		verifAssert(o1 == o2, "C13: two generations of the same file differ")
 	}
 	verifUnfreeze()
-	verifAssert(before == verifDeepDigest(reg) + verifGlobalsDigest(), "native: the registry changed during js generation")
+	verifAssert(before == verifDeepDigest(reg)+verifGlobalsDigest(), "native: the registry changed during js generation")
 }
 
 // files the JavaScript backend rejects part-way through (after some output was produced)
